@@ -1,6 +1,6 @@
 """C03 — patch histograms equal an independent solution of the radiosity recursion."""
 import numpy as np
-from .. import common, kernels, pipeline, energy, scenes
+from .. import common, kernels, pipeline, energy, scenes, endtoend
 
 LEVEL = 'proof'
 RULE = ('kernel-level exchange cases (as C02) plus pipeline-level scenes: random shoeboxes '
@@ -9,7 +9,7 @@ RULE = ('kernel-level exchange cases (as C02) plus pipeline-level scenes: random
         'truncating histograms; each stage recomputed by the Lean model from the inputs the object holds; '
         'non-trivial = order>=1 with non-zero result; distinct = different scene parameters')
 ASSUMPTIONS = ['theorems at real numbers, code at float64 (exchange kernel compared bit for bit)',
-               'form factors, visibility and the point-to-patch factor are inputs here (C04-C07 cover them)']
+               'stage-wise runs take form factors, visibility and the point-to-patch factor from the object; the end-to-end runs recompute everything in the Lean pipeline model from the bare scene description (walls, patch size, tables, attenuation, source, receiver, run parameters)']
 EXPLANATION = 'etc = coefficients of the polynomial recursion (spec), for every slot; order K = order K-1 + a non-negative term; diffuse walls make slots irrelevant.'
 
 
@@ -121,6 +121,10 @@ def run(ctx):
             check_order_monotone(ctx, sc, r)
         if k % 3 == 1:
             check_diffuse_slots(ctx, sc)
+    # end to end: the Lean pipeline model is fed with the bare scene description only
+    for k in range(2 if ctx.tier == 'quick' else 16):
+        sc = energy.gen_scene(ctx.rng, small=True, multi_dir=(k % 2 == 1), att_zero=False)
+        endtoend.corr_end_to_end(ctx, sc)
 
 
 def oracle(ctx, budget_s=60):
